@@ -23,7 +23,7 @@ pub fn c07_eof(x: &str, prefix_len: Option<usize>, eof_clause: bool, cfg: &Cfg, 
     let out = ctx.fmt(cfg, x);
     let tx = r::scan(x);
     let to = r::scan(&out);
-    let case = || json!({"oracle": "c07", "input": x, "cfg": cfg, "prefix_len": prefix_len});
+    let case = || json!({"oracle": "c07", "input": x, "cfg": cfg, "prefix_len": prefix_len, "eof_clause": eof_clause});
     if tx.len() != to.len() {
         ctx.fail("C07", "token-count", format!("{} tokens in, {} out; output {out:?}", tx.len(), to.len()), case());
         return;
